@@ -2,6 +2,7 @@
 
 CARRY-1       no accumulating state on shared expression nodes survives an evaluation without a reset
 CARRY-2       no one-shot iterator stored on an object that outlives the evaluation is advanced by it
+CARRY-SHARED  state kept over several results of one evaluation is not stored on the shared node (interleaved iterators)
 EP-HANDSHAKE  every evaluation installs its per-evaluation parent before evaluating children, and
               hands itself down as the children's parent
 Equality of result sequences under arbitrary interleavings is not decided.
@@ -124,6 +125,34 @@ def carry1(prog: Program) -> RuleResult:
             f"accumulated by {sorted({s[0].short for s in sites_})}, reset by {sorted({s[0].short for s in rs})}",
             f"{own}.{fl} is accumulated during evaluation ({how} in {sorted({s[0].short for s in sites_})}) and nothing in the evaluation closure resets it: what one "
             f"evaluation recorded decides what the next (or an interleaved) evaluation of the same expression yields",
+        )
+    r._acc, r._resets = acc, resets
+    return r
+
+
+def carry_shared(prog: Program, c1: RuleResult) -> RuleResult:
+    """State that one evaluation accumulates over several of its results must not live on the shared node: a second live
+    iterator of the same expression resets it (at its start) and fills it (while it runs) under the first one's feet."""
+    r = RuleResult("CARRY-SHARED", "state kept for a whole evaluation does not live on the shared expression node", floor=2)
+    se = prog.cls(SE)
+    step_starts = []
+    for c in prog.subclasses(se.qual):
+        m = c.methods.get("_evaluate__")
+        if m is not None:
+            step_starts.append((m, c.qual))
+    step = {f for f, _ in closure(prog, step_starts)}
+    for (own, fl), sites_ in sorted(c1._acc.items()):
+        rs = c1._resets.get((own, fl), [])
+        if not rs:
+            continue  # CARRY-1 reports it
+        f0, n0, how = sites_[0]
+        per_step = [g for g, _ in rs if g in step]
+        r.check(
+            bool(per_step), f"{own}.{fl}", site(f0, n0), src(n0)[:120],
+            f"cleared within the evaluation step that filled it ({sorted({g.short for g in per_step})}): nothing survives from one result to the next",
+            f"{own}.{fl} is filled while results are produced ({sorted({s[0].short for s in sites_})}) and cleared only once per evaluation ({sorted({g.short for g, _ in rs})}), "
+            f"so it lives on the shared node for the whole evaluation: two live iterators of the same expression share it - the one started later clears it and, "
+            f"when it finishes, leaves it full, and the earlier one then suppresses its remaining results",
         )
     return r
 
@@ -305,4 +334,5 @@ def reset_with_evaluation(prog: Program) -> RuleResult:
 
 
 def run(prog: Program, tier: str) -> List[RuleResult]:
-    return [carry1(prog), carry2(prog), ep_handshake(prog), domain_cache(prog), reset_with_evaluation(prog)]
+    c1 = carry1(prog)
+    return [c1, carry2(prog), ep_handshake(prog), domain_cache(prog), reset_with_evaluation(prog), carry_shared(prog, c1)]
